@@ -112,6 +112,19 @@ func c20Run(x *core.Ctx) {
 			if out, _, ok := all[r.Intn(len(all))].Inject(r, tsys.CloneItems(items)); ok {
 				items = out
 			}
+			if i%20 == 3 {
+				// the same kind of fault twice (two names declared twice): whatever the loader collects, what it returns is one
+				// well-formed error
+				for _, f := range all {
+					if f.Code == "dup-type" {
+						if o1, _, ok1 := f.Inject(r, tsys.CloneItems(items)); ok1 {
+							if o2, _, ok2 := f.Inject(r, o1); ok2 {
+								items = o2
+							}
+						}
+					}
+				}
+			}
 			k := 1 + r.Intn(3)
 			if k > len(items) {
 				k = len(items)
@@ -648,7 +661,7 @@ func c20TinySchema() *ast.Schema {
 // c20Name picks the name of a source from the text it holds: plain names and names that a path cleaner, a URL parser or an
 // encoder might want to "tidy" - the error must carry the name as given.
 func c20Name(text string) string {
-	names := []string{"request.graphql", "./ops//q.graphql", "a/../q.graphql", "dir/", "http://host//x.graphql?y=1#z", "ünï code.graphql", "C:\\x\\y.graphql", " lead.graphql ", "q\"uote.graphql"}
+	names := []string{"request.graphql", "input", "./ops//q.graphql", "a/../q.graphql", "dir/", "http://host//x.graphql?y=1#z", "ünï code.graphql", "C:\\x\\y.graphql", " lead.graphql ", "q\"uote.graphql"}
 	return names[core.HashString(text)%uint64(len(names))]
 }
 
